@@ -165,6 +165,8 @@ pub const BOUND_ROUTE_PROGRAMS: &[&str] = &[
     "a := {\"id\": \"A\", \"f\": fn () {\nreturn this.id\n}}\nh := {\"g\": a.f, \"id\": \"H\"}\n{\"g\": k} := h\nprint(k())\n{..r} := h\nprint(r.g())\nc := {h..}\nprint(c.g())\nfn pass(f) {\nreturn f\n}\nprint(pass(a.f)())\nprint(pass(h.g)())\n",
     "o := {\"id\": \"O\", \"helper\": fn () {\nreturn this.id\n}, \"run\": fn () {\nreturn this.helper() + this.helper()\n}, \"count\": fn (n) {\nif n == 0 {\nreturn this.id\n}\nreturn this.count(n - 1)\n}}\nprint(o.run())\nprint(o.count(3))\np := {\"id\": \"P\", \"helper\": o.helper, \"run\": o.run, \"count\": o.count}\nprint(p.run())\nprint(p.count(2))\n",
     "fn mk(id) {\nreturn {\"id\": id, \"helper\": fn () {\nreturn this.id\n}, \"run\": fn () {\nreturn this.helper()\n}}\n}\nx := mk(\"X\")\ny := mk(\"Y\")\ny.run = x.run\nprint(x.run())\nprint(y.run())\n",
+    "a := {\"id\": \"A\", \"f\": fn () {\nreturn this.id\n}}\nb := {\"id\": \"B\", \"f\": a.f}\njob := [a.f, b.f]\nfn call(f, g) {\nreturn [f(), g()]\n}\nprint(call(job[0], job[1]))\nprint(call(job..))\nprint(call(job[1:].., a.f))\nfn all(..fs) {\nreturn [fs[0](), fs[1]()]\n}\nprint(all(job..))\nprint([job.., job..][3]())\nhs := []\nhs += [b.f]\nhs = hs + job\nprint([hs[0](), hs[1]()])\nprint((job + [])[1]())\n",
+    "plain := [fn () {\nreturn 1\n}]\nw := {\"l\": plain}\nprint([w.l..][0]())\nprint((w.l + [])[0]())\nreg := {\"id\": \"R\", \"hooks\": []}\nouter := {\"id\": \"outer\", \"run\": fn () {\nreg.hooks += [fn () {\nreturn this.id\n}]\nhs := [reg.hooks..]\nreturn [hs[0](), reg.hooks[0](), this.id]\n}}\nprint(outer.run())\nprint([reg.hooks..][0]())\n",
 ];
 
 /// one access whose index, key or bound reads the container it is applied to, directly, through
@@ -213,3 +215,19 @@ pub fn deep_print_programs() -> Vec<String> {
     }
     v
 }
+
+/// which declaration a name reaches: pattern keys that read names bound earlier in the same
+/// pattern, non-functions shadowing functions, declared functions that outlive their scope, names
+/// declared after a function that reads them was created (shared by C04, C13, C20)
+pub const SCOPING_PROGRAMS: &[&str] = &[
+    "key := \"a\"\nrecord := {\"field\": \"b\", \"a\": \"property a\", \"b\": \"property b\"}\nfn pick(rec) {\n{\"field\": key, key: val} := rec\nreturn val\n}\nprint(pick(record))\nfn pick2(rec) {\n{\"field\": chosen, chosen: val} := rec\nreturn val\n}\nprint(pick2(record))\n{\"field\": k2, k2: v2} := record\nprint([k2, v2])\nfor [i, {\"field\": k3, k3: v3}] in [record] {\nprint(v3)\n}\nfn viaparam({\"field\": k4, k4: v4}) {\nreturn v4\n}\nprint(viaparam(record))\nk5 := null\nv5 := null\n{\"field\": k5, k5: v5} = record\nprint(v5)\n[{\"field\": k6}, {k6: v6}] := [record, record]\nprint(v6)\nnames := [\"a\", \"b\"]\n{\"field\": names[0], names[0]: names[1]} = record\nprint(names)\n",
+    "fn label() {\nreturn \"global label\"\n}\nfn render(label) {\nreturn label()\n}\nprint(render(fn () {\nreturn \"param fn\"\n}))\nprint(\"pre\")\nprint(render(\"text\"))\n",
+    "fn mk() {\ncount := 0\nfn next() {\ncount += 1\nreturn count\n}\nreturn next\n}\nn1 := mk()\nn2 := mk()\nprint([n1(), n1(), n2()])\nfn outer() {\nv := \"v\"\n{\nw := \"w\"\nfn inner() {\nreturn v + w\n}\nreturn inner\n}\n}\nprint(outer()())\nfs := []\nfor i in 0 .. 3 {\nfn show() {\nreturn i\n}\nfs += [show]\n}\nprint([fs[0](), fs[2]()])\no := {}\nfn install(target) {\nsecret := 41\nfn reveal() {\nsecret += 1\nreturn secret\n}\ntarget.reveal = reveal\n}\ninstall(o)\nprint(o.reveal())\nprint(o.reveal())\nif true {\nz := 1\nfn viaif() {\nz += 1\nreturn z\n}\no.f = viaif\n}\nprint(o.f())\nprint(o.f())\n",
+    "x := \"outer\"\n{\nprint(x)\nf := fn () {\nreturn x\n}\nx := \"inner\"\nprint(f())\nx = \"changed\"\nprint(f())\n}\nprint(x)\nfn g() {\nprint(x)\nh := fn () {\nx = x + \"!\"\nreturn x\n}\nx := \"local\"\nprint(h())\nreturn x\n}\nprint(g())\nprint(x)\ny := 1\nfor i in 0 .. 2 {\nprint(y)\nk := fn () {\ny += 10\nreturn y\n}\ny := 100\nprint(k())\n}\nprint(y)\n",
+    "fn label() {\nreturn \"global\"\n}\nfn render() {\nlabel := 5\nreturn label()\n}\nprint(\"pre\")\nrender()\n",
+    "for print in [1] {\nprint(2)\n}\n",
+    "fn f() {\nreturn 1\n}\n{\nf := null\nprint(\"pre\")\nf()\n}\n",
+    "fn f() {\nreturn \"outer f\"\n}\nfn g(f) {\nreturn [f()]\n}\nprint(g(fn () {\nreturn \"inner f\"\n}))\nfor f in [true] {\nprint(\"pre\")\nprint(f())\n}\n",
+    "fn area(w, h) {\nreturn w * h\n}\nfn show(area) {\nreturn area(2, 3)\n}\nprint(show(fn (a, b) {\nreturn a + b\n}))\nprint(show({\"k\": 1}))\n",
+    "x := \"outer\"\n{\nsaved := x\nfn show() {\nreturn x\n}\ng := fn () {\nx = x + \"!\"\nreturn x\n}\nx := \"inner\"\nprint([show(), g(), saved])\nx = \"changed\"\nprint([show(), g()])\n}\nprint(x)\nfn body() {\nkeep := x\nfn rd() {\nreturn x\n}\nx := \"local\"\nreturn [rd(), keep]\n}\nprint(body())\nfor i in 0 .. 2 {\nwas := x\nfn lp() {\nreturn [i, x]\n}\nx := $\"loop${was}\"\nprint(lp())\n}\nn := 0\nlim := 2\nwhile n < lim {\nn += 1\ncur := lim\nfn peek() {\nreturn lim\n}\nlim := 10\nprint([peek(), cur])\n}\nprint([x, lim])\n",
+];
